@@ -234,7 +234,9 @@ def run_search(b, sim, seed, tier, budget_s, mode='search', nworkers=None, count
     nworkers = nworkers or NCPU
     wd = b.scratch('%s-%s' % (sim, mode))
     t_end = time.time() + budget_s
-    hard = time.time() + budget_s * 3 + 300   # watchdog guarding the harness itself
+    # watchdog: workers stop by themselves when the budget is used up (they look at the clock between runs); one that is
+    # still busy with a single run long after that is stuck (e.g. a loop in the code under test that never ends)
+    hard = t_end + max(120.0, 0.5 * budget_s)
 
     def start(w, gen, start_idx):
         left = max(0.0, t_end - time.time())
@@ -528,7 +530,10 @@ def write_replay(prop, sim, sig, detail, scenario, trace, seed, shrunk_from=None
 
 def confirm_and_minimise(b, prop, sim, sig, scenario, seed, do_shrink=True, env=None):
     """Re-execute in a fresh process; shrink; return (sig, replay path) or None when not reproducible."""
-    r = run_replay(b, sim, [scenario], env=env)[0]
+    is_hang = sig.startswith('hang:')
+    if is_hang:
+        do_shrink = False   # every attempt costs a full watchdog period
+    r = run_replay(b, sim, [scenario], env=env, timeout=150 if is_hang else 600)[0]
     if r is None or r.get('sig') != sig:
         got = None if r is None else r.get('sig')
         # a crash is reported by the worker's death, its signature comes from the replay
@@ -542,7 +547,7 @@ def confirm_and_minimise(b, prop, sim, sig, scenario, seed, do_shrink=True, env=
     if do_shrink:
         small, tried = shrink(b, sim, scenario, sig, budget=int(os.environ.get('VERIF_SHRINK_BUDGET', '300')), env=env)
     size1 = sum(len(small.get(k) or []) for k in SHRINK_LISTS if isinstance(small.get(k), list))
-    r2 = run_replay(b, sim, [small], env=env)[0]
+    r2 = r if is_hang else run_replay(b, sim, [small], env=env)[0]
     if r2 is None or r2.get('sig') != sig:
         small, r2 = scenario, r
     path = write_replay(prop, sim, sig, r2.get('detail', ''), small, r2.get('trace'), seed,
